@@ -975,6 +975,25 @@ func (fr *Frame) evalCall(x *SCall, ctx *specCtx) SV {
 	case "strfloat":
 		g.needStrNum = true
 		return goSV(Val{T: types.Typ[types.Float64], S: "(str_float " + arg(0).Term + ")"})
+	case "at": // at(k, e): the value of e at the head of the current iteration of loop k (only inside loop k)
+		if len(x.Args) != 2 {
+			fail("spec: at(k, e)")
+		}
+		k, ok := x.Args[0].(*SInt)
+		if !ok {
+			fail("spec: at(k, e): k must be a loop number")
+		}
+		for _, li := range ctx.fr.loops {
+			if fmt.Sprint(li.ord) == k.Val {
+				if li.hdrSt == nil {
+					fail("spec: at(%s, ...) used outside loop %s", k.Val, k.Val)
+				}
+				n := *ctx
+				n.st = li.hdrSt
+				return fr.evalSpec(x.Args[1], &n)
+			}
+		}
+		fail("spec: at(): no loop %s", k.Val)
 	case "rematch": // rematch(re *regexp.Regexp, s string): the regular expression matches
 		g.needReMatch = true
 		return SV{Term: "(re_match " + arg(0).Term + " " + arg(1).Term + ")", K: svBool}
